@@ -97,6 +97,8 @@ struct Exec
 
 // one execution following `prefix`, then default choices; shutdownAt >= 0: issue shutdown() before that point
 static bool gPollReports = true;
+static int gAcceptFaults = 0;     // the first n accepts fail for lack of descriptors (EMFILE), then succeed
+static bool gFine        = false; // server threads also park before every mutex acquisition (finer than one epoll batch)
 static Exec run_one(const std::vector<uint8_t>& prefix, int shutdownAt, vr::Ctx& ctx, uint64_t& steps, const std::string& label)
 {
     Exec x;
@@ -105,6 +107,10 @@ static Exec run_one(const std::vector<uint8_t>& prefix, int shutdownAt, vr::Ctx&
     auto handler = Rest::Router::handler(router);
     auto opts    = Http::Endpoint::options().flags(Tcp::Options::ReuseAddr | Tcp::Options::NoDelay).maxRequestSize(4096);
     srv.start(handler, opts, W);
+    if (gFine)
+        for (int a = 0; a < 1 + W; ++a)
+            ng_set_fine(a, 1);
+    sim::S().accept_failures = gAcceptFaults;
     std::vector<ClientState> cl(C);
     std::string trace;
     auto detail = [&](const std::string& extra) {
@@ -124,7 +130,7 @@ static Exec run_one(const std::vector<uint8_t>& prefix, int shutdownAt, vr::Ctx&
         }
     };
     bool shutDown = false;
-    for (int point = 0; point < 400; ++point)
+    for (int point = 0; point < (gFine ? 4000 : 400); ++point)
     {
         if (point == shutdownAt)
         {
@@ -278,6 +284,8 @@ struct Case
 {
     int w, c, r, d;
     bool shutdowns;
+    bool fine        = false;
+    int acceptFaults = 0;
 };
 static void run_one_noreport(const std::vector<uint8_t>& prefix, vr::Ctx& ctx, uint64_t& steps)
 {
@@ -384,8 +392,10 @@ static void run_case(uint64_t idx, vr::Ctx& ctx)
     C            = c.c;
     R            = c.r;
     D            = c.d;
+    gFine        = c.fine;
+    gAcceptFaults = c.acceptFaults;
     build_scripts();
-    std::string label = "w=" + std::to_string(W) + " c=" + std::to_string(C) + " r=" + std::to_string(R) + " D<=" + std::to_string(D) + (c.shutdowns ? " +shutdown-at-every-prefix" : "");
+    std::string label = std::string(c.fine ? "[threads also yield before every lock] " : "") + (c.acceptFaults ? "[first " + std::to_string(c.acceptFaults) + " accepts fail with EMFILE] " : std::string()) + "w=" + std::to_string(W) + " c=" + std::to_string(C) + " r=" + std::to_string(R) + " D<=" + std::to_string(D) + (c.shutdowns ? " +shutdown-at-every-prefix" : "");
     ctx.note(label);
     uint64_t steps = 0, execs = 0, shutdownExecs = 0;
     std::vector<std::vector<uint8_t>> stack;
@@ -451,6 +461,12 @@ int main(int argc, char** argv)
     gCases.push_back({ 2, 2, 2, 1, false });
     gCases.push_back({ 2, 3, 1, 1, false });
     gCases.push_back({ 3, 3, 1, 1, false });
+    // finer than one epoll batch: acceptor and workers yield before every lock acquisition, so that another thread
+    // can run between two critical sections of one batch (two connections of one worker: w=1 c=2, w=2 c=3)
+    gCases.push_back({ 1, 2, 1, 1, false, true });
+    gCases.push_back({ 2, 3, 1, 1, false, true });
+    // shutdown while the acceptor cannot accept (out of descriptors) and a connection waits in the backlog
+    gCases.push_back({ 2, 2, 1, 1, true, false, 2 });
     gCases.push_back({ 2, 2, 2, 0, true });
     gCases.push_back({ 3, 3, 1, 0, true });
     if (thorough)
